@@ -105,4 +105,18 @@ CHECKS = {
         "design_ref": "DESIGN.md 2/C10",
         "note": "Cost is counted (sys.setprofile call events, read calls), never timed; memory blow-ups surface as MemoryError through RLIMIT_AS=3 GiB.",
     },
+    "C07": {
+        "level": "exploration",
+        "technique": "property-based testing over generated message sequences with instrumented sinks/sources; concatenation (metamorphic) oracle",
+        "text": "Generated conversations of header+payload messages of arbitrary classes with leading/trailing junk are written through one of four sink kinds and read back through one of three source kinds; bytes must equal the concatenation of the parts encoded alone, values and stop positions must match, and the instrumented streams reject anything but sequential write(bytes) / read(n>=0).",
+        "design_ref": "DESIGN.md 2/C07",
+        "note": "Stream kinds are emulations (recording asyncio transport, non-seekable raw stream with short reads), not real sockets.",
+    },
+    "C15": {
+        "level": "exploration",
+        "technique": "property-based testing of value-object laws (immutability, eq/hash, copy/replace/pickle) on harness-built and decoder-built instances; all classes enumerated",
+        "text": "Generated instances (and what entity_reader constructs for their encodings) of sampled classes, the zero instance of EVERY class, and the four record classes are checked against the value-object laws: mutation rejected, no __dict__, immutable reachable values, equality iff fields equal (single-field perturbation), hash consistency, copy/deepcopy/replace/pickle(2-5) give equal new instances and leave the original unchanged.",
+        "design_ref": "DESIGN.md 2/C15",
+        "note": "NaN floats are outside the canonical domain.",
+    },
 }
